@@ -91,6 +91,7 @@ def describe(o):
     return {"crystal": o["id"], "wavelength_m": fl(o["w"]), "temperature_c": fl(o["tc"]), "crystal_theta_rad": fl(o["ct"]),
             "crystal_phi_rad": fl(o["cp"]), "direction": [fl(x) for x in o["d"]], "principal_indices": [fl(x) for x in o["n"]],
             "generator": o.get("gen"),
+            "replay_args": ["idx", o["id"], o["w"], o["tc"], o["ct"], o["cp"]] + list(o["d"]),
             "call": f"CrystalSetup{{crystal: {o['id']}, theta: {fl(o['ct'])!r} rad, phi: {fl(o['cp'])!r} rad, temperature: "
                     f"{fl(o['tc'])!r} C}}.index_along({fl(o['w'])!r} m, Unit({[fl(x) for x in o['d']]}), pol)"}
 
@@ -229,7 +230,8 @@ def check_walk(ctx, obs):
         d = [frac_of_hex(x) for x in o["d"]]
         rep = {"crystal": o["id"], "wavelength_m": fl(o["w"]), "temperature_c": fl(o["tc"]), "crystal_theta_rad": float(ct),
                "crystal_phi_rad": float(cp), "polarization": o["pol"], "beam_phi": fl(o["bphi"]), "beam_theta": fl(o["btheta"]),
-               "generator": o["gen"], "call": "Beam::new(pol, beam_phi, beam_theta, wavelength, 100 um).walkoff_angle(&setup)"}
+               "generator": o["gen"], "call": "Beam::new(pol, beam_phi, beam_theta, wavelength, 100 um).walkoff_angle(&setup)",
+               "replay_args": ["walk", o["id"], o["w"], o["tc"], o["ct"], o["cp"], o["pol"], o["bphi"], o["btheta"]]}
         nm, ex = model_index(n, ct, cp, d, o["pol"])
         near_axis = ex.D < 1e-9
         rho = fl(o["rho"]) if o["rho"] is not None else None
@@ -333,6 +335,15 @@ def correspondence(ctx, kept, walk_goals, budget):
                       "case_walk_gen"))
         meta[cid] = ("walkgen", o)
     res = run_interval_cases(ctx, "C02", IMPORTS, goals)
+    failed = [g for g in goals if not res.get(g[0])]
+    if failed:
+        # a shard that was killed (memory pressure, time-out) reports all its goals as failed: try the failed goals once more,
+        # a few at a time, before calling them disagreements
+        ctx.log(f"   {len(failed)} goals not closed; retrying them once")
+        before = (ctx.cov["obligations"], ctx.cov["discharged"])
+        res2 = run_interval_cases(ctx, "C02r", IMPORTS, failed, shards=min(8, max(1, len(failed) // 4)), timeout=1500)
+        ctx.cov["obligations"], ctx.cov["discharged"] = before[0], before[1] + sum(1 for v in res2.values() if v)
+        res.update(res2)
     for cid, ok in res.items():
         if ok or cid not in meta:
             continue
@@ -350,8 +361,27 @@ def correspondence(ctx, kept, walk_goals, budget):
                       f"{fl(o['ct'])!r}, phi {fl(o['cp'])!r}, direction {[fl(x) for x in o['d']]}", {"kind": "model_mismatch", "which": m[0]}, rep, found_input=False)
 
 
+def run_replay(ctx, binp):
+    """./check C02 --replay <file>: re-run exactly the recorded input through the implementation and the oracle"""
+    rec = json.load(open(ctx.replay if os.path.isabs(ctx.replay) else os.path.join(VERIF, ctx.replay)))
+    ra = rec.get("detail", {}).get("replay_args")
+    if not ra:
+        ctx.note("replay file names no concrete input (broken proof obligation / correspondence case): running the full check instead")
+        return None
+    obs = run_harness(ctx, binp, ["c02", "replay"] + ra)
+    uniaxial = {o["id"]: o["uniaxial"] for o in obs if o["kind"] == "crystal"}
+    check_idx(ctx, obs, uniaxial)
+    check_walk(ctx, obs)
+    ctx.cov["rule"] = "replay of one recorded input"
+    return finish(ctx)
+
+
 def run(ctx):
     binp = build_harness(ctx)
+    if getattr(ctx, "replay", None):
+        r = run_replay(ctx, binp)
+        if r is not None:
+            return r
     msgs, spans = regen(ctx, ["fresnel"])
     ctx.cov["translated_spans"] = {k: v for k, v in spans.items() if k.split("::")[0] in ("crystal_setup", "beam", "differentiation")}
     for m in msgs:
@@ -361,7 +391,7 @@ def run(ctx):
     if not okf:
         ctx.note("Findings/C02_imaginary_index.v no longer compiles")
     quick = ctx.tier == "quick"
-    n_dir, n_walk, budget = (6, 3, 110) if quick else (40, 10, 330)
+    n_dir, n_walk, budget = (6, 3, 80) if quick else (40, 10, 330)
     obs = run_harness(ctx, binp, ["c02", ctx.seed, n_dir, n_walk])
     for c in [o for o in obs if o["kind"] == "harness_crash"]:
         ctx.violation("S5", "harness crashed", {"kind": "crash"}, c)
